@@ -89,10 +89,10 @@ void NetZoneImpl__get_local_route(struct NetZoneImpl* self, struct NetPoint* src
                                   struct Route* route, double* lat)
     __CPROVER_requires(g_ncalls < MAXCALLS && vf_exc == 0 && self != NULL && RL.h == 0 && RL.n <= LBUF &&
                        RL.n + SEGCAP <= RL.cap && RL.n <= 1 && lat != NULL)
-    /* NOTE (CBMC 6.11 dfcc): assigns targets with a symbolic index (g_q[g_ncalls], RL.d[RL.n]) of a REPLACED contract are
-       not havocked reliably when the contract is applied several times: whole objects are assigned and every untouched
-       element is restated (KEEPQ, RL.d[0]) */
-    __CPROVER_assigns(g_ncalls, __CPROVER_object_whole(g_q), route->gw_src_, route->gw_dst_, RL.n,
+    /* NOTE (CBMC 6.11 dfcc): lvalue assigns targets of POINTER type (RL.d[RL.n], route->gw_src_) of a REPLACED contract get
+       the same havoc value at every application (docs/HOWTO.md): whole objects are assigned and every untouched element is
+       restated (KEEPQ, RL.d[0]); single pointer fields go through VF_PT (byte-level havoc, fresh each time) */
+    __CPROVER_assigns(g_ncalls, __CPROVER_object_whole(g_q), VF_PT(route->gw_src_), VF_PT(route->gw_dst_), RL.n,
                       __CPROVER_object_whole(RL.d), *lat)
     __CPROVER_ensures(ALL_KEEPQ)
     __CPROVER_ensures(__CPROVER_old(RL.n) < 1 || RL.d[0] == __CPROVER_old(RL.d[0]))
@@ -153,7 +153,7 @@ void add_link_latency_one(struct vf_seq_StandardLinkImplP* result, struct Standa
     __CPROVER_requires(result == &g_links && g_links.d == g_lbuf && g_links.h == 0 && g_links.cap == LBUF &&
                        g_links.n < LBUF && vf_exc == 0 && (latency == NULL || latency == &g_lat) &&
                        IS_LK(link) && FIN(g_lat))
-    __CPROVER_assigns(g_links.n, g_lbuf[g_links.n], g_lat)
+    __CPROVER_assigns(g_links.n, VF_PT(g_lbuf[g_links.n]), g_lat)
     __CPROVER_ensures(g_links.n == __CPROVER_old(g_links.n) + 1 && g_lbuf[g_links.n - 1] == link) /*@ one_link_at_tail */
     __CPROVER_ensures(latency == NULL || g_lat == __CPROVER_old(g_lat) + LAT_OF(link))           /*@ one_latency_added */
     __CPROVER_ensures(latency != NULL || g_lat == __CPROVER_old(g_lat)) /*@ one_null_latency_untouched */
